@@ -92,10 +92,18 @@ func harnessFn(name string) externalFn {
 			fr.i.nowHook = a[0].(*value)
 			return nil
 		}
+	case "verifYield": // lets every other runnable goroutine run until it blocks
+		return func(fr *frame, a []value) value {
+			yielded := false
+			fr.park(func() bool { r := yielded; yielded = true; return r }, "yield")
+			return nil
+		}
 	case "verifWaitGroupCount":
 		return func(fr *frame, a []value) value { return int((*wgCounter(a[0])).(uint64)) }
 	case "verifIsSymbolic": // for engine self tests
 		return func(fr *frame, a []value) value { return isSym(a[0]) }
+	case "verifNative":
+		return func(fr *frame, a []value) value { return false }
 	case "verifMathMode":
 		return func(fr *frame, a []value) value { return fr.i.ctx.Mode == Math }
 	case "verifNote": // attaches a rendered value to the violation report, no-op otherwise
